@@ -16,6 +16,8 @@ def run(ck):
     ck.mc("SharedTimeout", "SharedTimeout.mc2.cfg" if quick else "SharedTimeout.mc.cfg", timeout=3000)
     # the registry of shutdown-aware events against the exit hook, constructions and reclaimed events
     ck.mc("ExitRegistry", "ExitRegistry.mc2.cfg" if quick else "ExitRegistry.mc.cfg", timeout=3000)
+    if not quick:
+        ck.mc("ExitRegistry", "ExitRegistry.mc3.cfg", timeout=3000)     # four executors, two of them dropped (14.6 M states)
     tasks = []
     # placement sweep in the real code: the action lands at every step index of the handling of a submission
     for kind in KINDS:
